@@ -94,6 +94,7 @@ func verifyFunc(p *Program, fn *ssa.Function, fc *FuncContract) (u *UnitResult) 
 		}
 		fr.vals[prm] = v
 		fr.params[prm.Name()] = v
+		fr.pointeeFacts(v, st, next0, 0)
 		fr.inputs = append(fr.inputs, v.S)
 		u.paramConst[prm.Name()] = v.S
 		u.specVars[prm.Name()] = v
@@ -432,4 +433,33 @@ func verifyCensus(p *Program, cn *Census) *UnitResult {
 		}
 	}
 	return u
+}
+
+// pointeeFacts: what a pointer parameter points to at entry is a well-formed value of its type (slice headers,
+// integer ranges) whose references were allocated before the call; followed through pointer fields two levels.
+func (fr *frame) pointeeFacts(v T, st *state, next0 string, depth int) {
+	vc := fr.vc
+	pt, ok := unalias(v.GT).Underlying().(*types.Pointer)
+	if !ok || depth > 2 {
+		return
+	}
+	stt, ok := unalias(pt.Elem()).Underlying().(*types.Struct)
+	if !ok {
+		return
+	}
+	s := vc.sortOf(pt.Elem())
+	h := vc.heapPtr(s)
+	obj := T{fmt.Sprintf("(select %s %s)", vc.heapGet(st, h), v.S), s, pt.Elem()}
+	guard := fmt.Sprintf("(> %s 0)", v.S)
+	for _, c := range vc.validity(obj, 0) {
+		vc.assume("true", implies(guard, c))
+	}
+	for _, c := range vc.allocFacts(obj, next0, 0) {
+		vc.assume("true", implies(guard, c))
+	}
+	for i := 0; i < stt.NumFields(); i++ {
+		if _, isPtr := unalias(stt.Field(i).Type()).Underlying().(*types.Pointer); isPtr {
+			fr.pointeeFacts(vc.getField(obj, i), st, next0, depth+1)
+		}
+	}
 }
